@@ -10,7 +10,7 @@ rsync -a --delete --exclude /target --exclude /.git --exclude /website --exclude
 S=/var/tmp/bsverif_seed
 mkdir -p $S
 [ -d $S/kani-target ] || cp -r /var/tmp/bsverif/kani-target $S/kani-target
-BSVERIF_REPO=$src BSVERIF_SCRATCH=$S python3 /verif/bsverif/run.py $prop --no-evidence "$@"
+BSVERIF_REPO=$src BSVERIF_SCRATCH=$S BSVERIF_REPLAYS=$S/replays python3 /verif/bsverif/run.py $prop --no-evidence "$@"
 rc=$?
 rm -rf $src
 echo "try_seed $id $prop rc=$rc"
